@@ -1,7 +1,8 @@
 /- Model driver for C17: the Float instantiation of the hand-written loss-distribution model. -/
 import FinVerif.Driver.Util
 import FinVerif.Model.C17F
-open FinVerif FinVerif.Driver FinVerif.Model.C17 FinVerif.Model.C17F
+import FinVerif.Model.C17Inv
+open FinVerif FinVerif.Driver FinVerif.Model.C17 FinVerif.Model.C17F FinVerif.Model.C17Inv
 
 /-- split `xs` into `k` consecutive blocks of length `n` -/
 def blocks (n : Nat) : Nat → List Float → Option (List (List Float))
@@ -49,6 +50,12 @@ def step (t : List String) : String :=
       | some [lrs, betas, thr] => showFloat (trancheSurvABF k1 k2 avg thr betas lrs steps)
       | _ => "bad-op"
     | _, _, _, _ => "bad-op"
+  | "UDT" :: n :: rest =>      -- uniform_to_default_time(u, t, v): `UDT n u t_0..t_{n-1} v_0..v_{n-1}`
+    match nat? n, floats? rest with
+    | some n, some (u :: xs) => match blocks n 2 xs with
+      | some [ts, vs] => if n == 0 then "bad-op" else showFloat (uniformToDefaultTimeF u ts.toArray vs.toArray)
+      | _ => "bad-op"
+    | _, _ => "bad-op"
   | _ => "bad-op"
 
 def main : IO Unit := loop step
